@@ -21,7 +21,7 @@ CLAIMED = {
     "C08": ("proof", "get_national_summary_estimates in all four modes: size check iff, lower <= pred <= upper, threshold mode within [base, base+total weight] and pred = base + weights of positive-margin contests, called contests contribute no uncertainty; typestate: only top-level aggregate calls write the state it reads (proved on the real aggregate functions for four aggregate lists)", "A-REAL; dictionary keys = contest names (precondition); None-weights variant not covered; argsort/gather contracts", TECH, "DESIGN 4 C08"),
     "C13": ("proof", "schema of the merged unit/state tables for 1..3 estimands and non-ascending levels (key/category columns once, every level's column carries that level's interval), own conformal correction per estimand on one model object", "cross-request independence of VALUES for bootstrap/gaussian is not covered by a proof here (see DESIGN)", TECH, "DESIGN 4 C13"),
     "C15": ("proof", "proved from the real AST: GaussianModel._fit computes every group's statistics over exactly its own calibration rows; one step of the fallback cascade of GaussianModel.fit (threshold min(10, #cal), exact row sets of the two recursive calls) and, with the recursive calls under the same contract, the multi-level result table of the statement (induction over the recursion); GaussianElectionModel.get_aggregate_prediction_intervals with fit under that contract: exactly one model row per group with outstanding units from the right level (own / state / all), the interval formula (quantile at (3+alpha)/4, sigma*sqrt(W2+kappa*W^2)), floors, whole numbers, finiteness; plus the unit-level formula", "A-WM / A-SIGMA (weighted median and bootstrapped scale are functions of the multiset of their rows), norm.ppf = loc + scale*z_q, sqrt/round axiomatised; termination of the recursion not proved; interval formulas proved as generalisations (products as AC uninterpreted functions); a bounded end-to-end companion on real floats is kept and not counted as proved", TECH, "DESIGN 0.4 / 4 C15"),
-    "C16": ("exploration", "bounded stand-in: the real Featurizer on every assignment of 3 levels to <= 4/5 units, split points, second fixed effect, selected-level subsets, features, per-state copies, checked clause by clause; plus PROVED call-site alignment (training / calibration / non-reporting slices) and the no-covariate configuration executed symbolically", "dynamic column sets are outside the executable subset: content clauses are not proved", "bounded stand-in on the real class (exploration) + contract-based proofs of the call sites", "DESIGN 4 C16"),
+    "C16": ("proof", "the real Featurizer (prepare_data, _expand_fixed_effects, _sort_features, filter_to_active_features, generate_holdout_data) executed symbolically on a frame of ARBITRARILY many units with arbitrary level assignment: column order and equality of the two matrices, one absorbed observed level per effect, non-constant fitted dummies, fitted-or-absorbed iff observed in fitting, indicator / equal share 1/(k+1), centring, 'other' pooling, per-state copies; plus the call-site alignment units and the no-covariate configuration", "configuration bound: the level names of a fixed effect range over a finite universe (3 + 2 names, plus 'other'), which is what makes the data-dependent column set concrete per path; <= 2 effects, listed feature / selected-level / state lists; scale_features not covered; >= 1 fitting row required (C14 gate); pandas get_dummies / column-wise reductions as stated contracts; bounded companion on real pandas kept", TECH, "DESIGN 0.4 / 4 C16"),
     "C17": ("proof", "the nested compute_estimated_margin executed from the real AST: accepted histories are monotone with possible batches only, every whole percent 0..latest, imputed margin in [-1,1] (convex combination), first margin before the first observation, 0 at 0%, correction = final - imputed; discarded histories return 101 rows of missing values with the error type", "A-REAL (the bounded companion runs float64 AND int64 histories on the real code: it found the integer truncation defect F13, now fixed), V2, numpy positional contracts, lemma mono_of_succ", TECH + "; ghost instantiation, generalisation of nonlinear subterms", "DESIGN 4 C17"),
     "C10": ("proof", "self-composition on the real code: changing the count of an outstanding / blocklisted / zero-baseline / unexpected unit leaves every other unit's frame, category, prediction and interval unchanged (get_units, conformal unit predictions and intervals with the solver / featurizer / outlier model as functions of their requests), group sums change only in the unit's own groups, historical results below the threshold are hidden; bounded pairs of real runs for all three estimators (not counted as proved)", "A-QR / Featurizer / outlier model are functions of their inputs; extrapolation and presidential-correction paths not verified; bootstrap and gaussian estimators only through the bounded companions", TECH + "; relational (two-state) VCs", "DESIGN 4 C10"),
     "C11": ("proof", "two-state proofs on the real code: adding a feed unit outside the baseline leaves the modelled frames unchanged and adds exactly one 'unexpected' row whose county/district are the right id components; counted votes, prediction and both bounds of exactly its groups grow by exactly its votes at state/county/district level, classification tables unchanged, new groups created; bootstrap totality (no TypeError) proved with the aggregate units; bootstrap value-independence bounded", "V8 (id shapes); the bootstrap new-state case is a recorded known finding (F9)", TECH + "; relational (two-state) VCs, sum_split / singleton lemma instances", "DESIGN 4 C11"),
